@@ -16,6 +16,8 @@ import os
 import random
 import shutil
 import sys
+import threading
+import time
 from pathlib import Path
 
 CODE = {
@@ -29,6 +31,35 @@ SEEDS = [1, 2, 3]
 NDRAWS = 40
 PYN_SEED = 99
 MODULE = "procstate_c30"
+# Time-out executions: one statement => the first join expires after 1 s, the grace join 5 s later; the
+# code under test acts at 0 s and/or after DELAY = 2.5 s (1.5 s after the first expiry, 3.5 s before the
+# end of the grace join).
+T_PER_STATEMENT, T_MAX, DELAY = 1, 5, 2.5
+
+
+def timeout_call(kind, *a):
+    """(source of the single statement, actions before the first join expires, actions during the grace join)"""
+    d = DELAY
+    table = {
+        "log_late": (f"t_log_late({d}, {a[0] if a else 50})", [], [("LogDisable", a[0] if a else 50)]),
+        "log_early": (f"t_log_early({a[0] if a else 50}, {d})", [("LogDisable", a[0] if a else 50)], []),
+        "log_both": (f"t_log_both({a[0] if a else 20}, {d}, {a[1] if len(a) > 1 else 50})",
+                     [("LogDisable", a[0] if a else 20)], [("LogDisable", a[1] if len(a) > 1 else 50)]),
+        "close_out_late": (f"t_close_out_late({d})", [], [("CloseOut",)]),
+        "close_err_early": (f"t_close_err_early({d})", [("CloseErr",)], []),
+        "set_out_late": (f"t_set_out_late({d})", [], [("SetOut",)]),
+        "close_in_late": (f"t_close_in_late({d})", [], [("CloseIn",)]),
+        "os_close_late": (f"t_os_close_late({d}, {a[0] if a else 1})", [], [("OsClose", a[0] if a else 1)]),
+        "os_close_early": (f"t_os_close_early({a[0] if a else 2}, {d})", [("OsClose", a[0] if a else 2)], []),
+        "seed_late": (f"t_seed_late({d}, {a[0] if a else 3})", [], [("Seed", a[0] if a else 3)]),
+        "mixed": (f"t_mixed(40, 2, {d}, 1, 50)", [("LogDisable", 40), ("Seed", 2)],
+                  [("OsClose", 1), ("CloseOut",), ("LogDisable", 50)]),
+    }
+    return table[kind]
+
+
+TIMEOUT_KINDS = ["log_late", "log_early", "log_both", "close_out_late", "close_err_early", "set_out_late",
+                 "close_in_late", "os_close_late", "os_close_early", "seed_late", "mixed"]
 
 
 def code_of(a) -> str:
@@ -106,6 +137,8 @@ class Session:
 
     def new_executor(self):
         self.executor = self._Executor(self.sp, maximum_test_execution_timeout=120, test_execution_time_per_statement=60)
+        self.timeout_executor = self._Executor(self.sp, maximum_test_execution_timeout=T_MAX,
+                                               test_execution_time_per_statement=T_PER_STATEMENT)
 
     def __exit__(self, *exc):
         (sys.stdout, sys.stderr, sys.stdin, sys.__stdout__, sys.__stderr__, sys.__stdin__) = self._saved_streams
@@ -217,6 +250,26 @@ class Session:
             outs.append(("Done",))
         return outs
 
+    def execute_timeout(self, code):
+        """Run a single statement that sleeps past the 1 s budget.  Returns 'timeout' (as expected),
+        'no-timeout', or None when the condemned thread outlived even the grace join (overload)."""
+        import libcst as cst
+
+        import pynguin.testcase.testcase as tc
+
+        t = tc.TestCase()
+        t.add_statement(tc.Statement(node=cst.parse_module(code + "\n").body[0], bound_variable=None, bound_type=None))
+        known = set(threading.enumerate())
+        t0 = time.time()
+        res = self.timeout_executor.execute(t)
+        took = time.time() - t0
+        stragglers = [th for th in threading.enumerate() if th not in known and th.is_alive()]
+        if stragglers or took > T_PER_STATEMENT + T_MAX - 0.5:
+            for th in stragglers:
+                th.join(30)
+            return None
+        return "timeout" if res.timeout else "no-timeout"
+
     def run_sequence(self, seq):
         """Returns dict(init, steps=[(item, outcomes, observed)], oracle=[(signature, message, step)])
         or None when an execution timed out (machine overloaded): inconclusive."""
@@ -227,6 +280,18 @@ class Session:
             if item[0] == "PynDraw":
                 self.randomness.RNG.random()
                 steps.append((item, [], self.observe()))
+                continue
+            if item[0] == "ExecTimeout":
+                code, _t1, _t2 = timeout_call(*item[1])
+                before = self._pyn_snapshot()
+                r = self.execute_timeout(code)
+                if r is None:
+                    self.timeouts += 1
+                    self.new_executor()
+                    return None
+                after = self._pyn_snapshot()
+                steps.append((item, [] if r == "timeout" else [("Exc", "E_no_timeout")], self.observe()))
+                viol += [(s + ":after-timeout", m + " (execution that timed out)", k) for s, m in compare_snapshots(before, after)]
                 continue
             before = self._pyn_snapshot()
             outs = self.execute(item[1])
@@ -290,6 +355,16 @@ def gen_sequence(rng):
             items.append(("Exec", [gen_act(rng) for _ in range(rng.choice([1, 2, 3, 4, 5]))]))
     return {"custom_out": False, "custom_err": False, "custom_in": rng.random() < 0.3,
             "logd": rng.choice([0, 0, 10, 30, 50]), "items": items}
+
+
+def gen_timeout_sequence(rng, kind=None):
+    """A sequence around one execution that runs into the time-out (about 2.5 s each)."""
+    pre = [("Exec", [gen_act(rng) for _ in range(rng.choice([1, 2, 3]))]) for _ in range(rng.choice([0, 1, 2]))]
+    kind = kind or rng.choice(TIMEOUT_KINDS)
+    post = [("Exec", [("LogCheck",), ("Print",), ("PrintErr",), ("OsFstat", 1), ("ReadIn",)]),
+            ("Exec", [gen_act(rng) for _ in range(rng.choice([1, 2, 3]))])]
+    return {"custom_out": False, "custom_err": False, "custom_in": rng.random() < 0.3,
+            "logd": rng.choice([0, 10, 30]), "items": pre + [("ExecTimeout", [kind])] + post}
 
 
 def reads_hidden(acts) -> bool:
